@@ -5,6 +5,7 @@ import (
 	"fmt"
 	"sort"
 	"strings"
+	vs "vsched"
 
 	"github.com/couchbase/moss"
 )
@@ -109,10 +110,15 @@ func (n *Node) Apply(b *BatchSpec) {
 }
 
 // appendMergeOperator is handed to moss as CollectionOptions.MergeOperator.
-type appendMergeOperator struct{}
+// Yield: every FullMerge call is a scheduling point (label "merge-op") when it runs in a scheduled thread - a user
+// callback in the middle of the merger's (or persister's) work, with no moss lock held.
+type appendMergeOperator struct{ Yield bool }
 
 func (appendMergeOperator) Name() string { return "verif-append" }
-func (appendMergeOperator) FullMerge(key, existing []byte, operands [][]byte) ([]byte, bool) {
+func (o appendMergeOperator) FullMerge(key, existing []byte, operands [][]byte) ([]byte, bool) {
+	if o.Yield {
+		vs.Yield("merge-op")
+	}
 	var cur *string
 	if existing != nil {
 		s := string(existing)
